@@ -60,6 +60,7 @@ type semEnv struct {
 // newSemEnv: a fresh interpreter with the two host functions of the effect trace.
 func newSemEnv() *semEnv {
 	se := &semEnv{env: zygo.NewZlisp()}
+	se.env.StandardSetup() // the infix builder and the ++ macro, as every embedding sets up
 	se.env.AddFunction("tr", func(env *zygo.Zlisp, name string, args []zygo.Sexp) (zygo.Sexp, error) {
 		if len(args) != 2 {
 			return zygo.SexpNull, fmt.Errorf("tr: wrong number of arguments")
@@ -214,6 +215,10 @@ func init() {
 				}
 				text := renderProgram(prog, lay)
 				w.write(runSem(fmt.Sprintf("%s-%d-%d", sl, c.seed, i), sl, prog, text))
+				if lay == nil && r.intn(2) == 0 {
+					// the same program in the infix surface syntax
+					w.write(runSem(fmt.Sprintf("%s-%d-%d-infix", sl, c.seed, i), sl+":infix", prog, renderInfixProgram(prog)))
+				}
 				idx++
 			}
 		}
